@@ -1694,9 +1694,12 @@ class Compiler:
 
         self._slots.add(name)
 
+        # Note that global definitions made by the slot filler must
+        # reach the remainder of the macro (as after a macro call).
         orelse = template(
             "SLOT(__stream, econtext.copy(), rcontext)",
-            SLOT=name)
+            SLOT=name) + \
+            template("econtext.update(rcontext)")
         test = ast.Compare(
             left=load(name),
             ops=[ast.Is()],
